@@ -3,13 +3,13 @@ module github.com/mimecast/dtail/verifharness
 go 1.20
 
 require (
+	github.com/DataDog/zstd v1.5.6
 	github.com/anishathalye/porcupine v1.3.0
 	github.com/mimecast/dtail v0.0.0
 	golang.org/x/crypto v0.26.0
 )
 
 require (
-	github.com/DataDog/zstd v1.5.6 // indirect
 	golang.org/x/sys v0.23.0 // indirect
 	golang.org/x/term v0.23.0 // indirect
 )
